@@ -16,6 +16,26 @@ fn arg(args: &[String], name: &str) -> Option<String> {
 
 fn main() {
     let args: Vec<String> = std::env::args().collect();
+    if args.len() >= 3 && args[1] == "probe-display" {
+        // child process of the C06 deep-nesting probe: decode + Display a chain of `depth` nested messages on a thread
+        // with the default 2 MiB stack of a spawned Rust thread; prints "displayed <n> bytes" if it returns
+        let depth: usize = args[2].parse().unwrap_or(1);
+        let bytes = rv::props::codec::nested_chain(depth);
+        let h = std::thread::Builder::new().name("display-probe".into()).stack_size(2 << 20).spawn(move || match roughenough::RtMessage::from_bytes(&bytes) {
+            Ok(m) => format!("{}", m).len(),
+            Err(_) => 0,
+        });
+        match h.unwrap().join() {
+            Ok(n) => {
+                println!("displayed {} bytes", n);
+                std::process::exit(0);
+            }
+            Err(_) => {
+                println!("panicked");
+                std::process::exit(3);
+            }
+        }
+    }
     if args.len() >= 2 && args[1] == "gen-corpus" {
         install_quiet_panic_hook();
         std::process::exit(gen_corpus());
@@ -334,6 +354,18 @@ fn check(args: &[String]) -> i32 {
                 Err(e) => inconclusive.push(format!("fuzz target {}: {}", target, e)),
             }
         }
+    }
+
+    // failures of the machinery itself (a positive control that did not fire, the two oracles disagreeing with each
+    // other, a panic inside harness code) say nothing about the property: inconclusive, never a violation
+    let is_harness = |sig: &str| {
+        let s = sig.strip_prefix("flaky|").unwrap_or(sig);
+        s.starts_with("positive-control-failed") || s.starts_with("oracle-disagreement") || s.starts_with("harness-") || s.starts_with("bad-replay-file")
+    };
+    let (machinery, real): (Vec<_>, Vec<_>) = violations.into_iter().partition(|(v, _)| is_harness(&v.sig));
+    let violations = real;
+    for (v, path) in &machinery {
+        inconclusive.push(format!("machinery failure (not a property verdict): sub={} sig={} :: {} [case saved at {}]", v.sub, v.sig, truncate(&v.what, 300), path));
     }
 
     // 3. verdict lines
